@@ -391,6 +391,13 @@ func (l *lexer) scanName() token {
 			break
 		}
 
+		// A rune that merely starts a two-character symbol (a
+		// lone '!' or '~') is part of the name when it comes
+		// first. Always consume it so that the lexer advances.
+		if !isVar && l.current-l.width == l.start && lookupSymbol1(ch) == 0 {
+			continue
+		}
+
 		// ...or anything that looks like an operator.
 		if lookupSymbol1(ch) > 0 || lookupSymbol2(ch) != nil {
 			l.backup()
@@ -476,10 +483,15 @@ func (l *lexer) acceptRunes2(r1, r2 rune) bool {
 }
 
 func (l *lexer) accept(isValid func(rune) bool) bool {
+	// Remember the width of the rune before the look-ahead so
+	// that a backup after a failed accept steps over that rune,
+	// not over the (possibly wider) look-ahead rune.
+	width := l.width
 	if isValid(l.nextRune()) {
 		return true
 	}
 	l.backup()
+	l.width = width
 	return false
 }
 
